@@ -25,6 +25,7 @@ package ice
 //@   loop 2 invariant conn.rpos == old(conn.rpos) + 2 + bytesRead
 //@   loop 2 invariant forall j int :: buf.off <= j && j < buf.off + bytesRead ==> elems(buf)[j] == conn.stream[old(conn.rpos) + 2 + (j - buf.off)]
 //@   loop 2 decreases length - bytesRead
+//@   ensures non-negative: result >= 0
 //@   ensures length: err == nil ==> result == be16(conn.stream, old(conn.rpos))
 //@   ensures fits: err == nil ==> result <= cap(buf)
 //@   ensures consumed: err == nil ==> conn.rpos == old(conn.rpos) + 2 + result
@@ -44,3 +45,17 @@ package ice
 //@   ensures header: err == nil ==> be16(conn.wstream, old(conn.wpos)) == len(buf)
 //@   ensures payload: err == nil ==> forall j int :: old(conn.wpos) + 2 <= j && j < old(conn.wpos) + 2 + len(buf) ==> conn.wstream[j] == elems(buf)[buf.off + (j - old(conn.wpos) - 2)]
 //@   ensures prefix: err == nil ==> forall j int :: j < old(conn.wpos) ==> conn.wstream[j] == old(conn.wstream[j])
+
+// The per-connection reader of a tcpPacketConn: any read error (including a
+// frame larger than the buffer) ends the reader and detaches the connection —
+// the stream is never resynchronised after an error — and every packet handed
+// to the receive queue has exactly the framed length.
+//@ func (*tcpPacketConn).startReading
+//@   props C14
+//@   requires conn != nil
+//@   ghostvar failed bool = false
+//@   loop 1 invariant no-read-after-error: !failed
+//@   site call readStreamingPacket#1 assert reads-into-full-buffer: arg1 == buf && len(buf) == receiveMTU
+//@   site call readStreamingPacket#1 ghost failed := result1 != nil
+//@   site call removeConn#1 assert detached-on-error: failed && arg1 == conn
+//@   site call handleRecv#2 assert delivers-framed-length: !failed && len(arg1.Data) == n && arg1.Err == nil
